@@ -11,13 +11,20 @@ Fixpoint incr (l : list Z) : Prop :=
   end.
 Definition lowb (i : Z) (l : list Z) : Prop := match l with [] => True | x :: _ => i <= x end.
 
+Lemma nk_aux_cons2 i x y t :
+  nk_aux i (x :: y :: t) = if x + 1 =? y then i :: nk_aux (i + 1) (y :: t) else (x + 1) :: y :: t.
+Proof. reflexivity. Qed.
+Lemma next_k_array_cons2 x y t :
+  next_k_array (x :: y :: t) = if x + 1 <? y then (x + 1) :: y :: t else 0 :: nk_aux 1 (y :: t).
+Proof. reflexivity. Qed.
+
 Lemma nk_aux_spec : forall l i, incr l -> lowb i l ->
   length (nk_aux i l) = length l /\ incr (nk_aux i l) /\ lowb i (nk_aux i l).
 Proof.
   induction l as [|x l IH]; intros i Hi Hl; [cbn; auto|].
   destruct l as [|y t].
   - cbn [nk_aux length incr lowb] in *. repeat split; auto. lia.
-  - cbn [nk_aux]. cbn [incr] in Hi. destruct Hi as [Hxy Hr]. cbn [lowb] in Hl.
+  - rewrite nk_aux_cons2. cbn [incr] in Hi. destruct Hi as [Hxy Hr]. cbn [lowb] in Hl.
     destruct (Z.eqb_spec (x + 1) y) as [E|E].
     + destruct (IH (i + 1) Hr) as [H1 [H2 H3]]; [cbn [lowb]; lia|].
       split; [cbn [length] in *; lia|]. split; [|cbn; lia].
@@ -30,7 +37,7 @@ Lemma next_k_array_spec a : incr a -> lowb 0 a ->
   length (next_k_array a) = length a /\ incr (next_k_array a) /\ lowb 0 (next_k_array a).
 Proof.
   intros Hi Hl. destruct a as [|x [|y t]]; [cbn; auto | cbn [next_k_array length incr lowb] in *; repeat split; auto; lia |].
-  cbn [next_k_array]. cbn [incr] in Hi. destruct Hi as [Hxy Hr]. cbn [lowb] in Hl.
+  rewrite next_k_array_cons2. cbn [incr] in Hi. destruct Hi as [Hxy Hr]. cbn [lowb] in Hl.
   destruct (Z.ltb_spec (x + 1) y).
   - split; [reflexivity|]. split; [|cbn; lia]. cbn [incr]. split; [lia|exact Hr].
   - destruct (nk_aux_spec (y :: t) 1 Hr) as [H1 [H2 H3]]; [cbn; lia|].
